@@ -1028,8 +1028,8 @@ func enclosingCase(path []ast.Node) *ast.CaseClause {
 // `(export 'name)` — can each be stated in ANY file of the session.  So the
 // function that decides has two phases: collect over all files, then decide.
 func init() {
-	register(&Rule{ID: "MINIFY.session-wide-sets", Floor: 3,
-		Doc: "in preservePackageSurfaceSymbols the per-file decision loop reads only maps that were completed, by loops over ALL files, before it starts; among them one is filled through the export recogniser (exportNames) and one through the qualified-symbol recogniser (splitQualifiedSymbol) — an export or a qualified reference written in one file protects the definition written in another",
+	register(&Rule{ID: "MINIFY.session-wide-sets", Floor: 4,
+		Doc: "in preservePackageSurfaceSymbols the per-file decision loop reads only maps that were completed, by loops over ALL files, before it starts; among them one is filled through the export recogniser (exportNames), one through the qualified-symbol recogniser (splitQualifiedSymbol) and one counts the definitions of each name — an export or a qualified reference written in one file protects the definition written in another, and a name the session defines more than once keeps its name",
 		Run: func(c *Ctx) []Obligation {
 			const rid = "MINIFY.session-wide-sets"
 			fn, fd, pkg := c.LookupFunc("minifier.preservePackageSurfaceSymbols")
@@ -1089,6 +1089,7 @@ func init() {
 				fillsLate   []ast.Node
 				viaExp      bool
 				viaQual     bool
+				viaCount    bool
 			}
 			uses := map[types.Object]*mapUse{}
 			ast.Inspect(decision.Body, func(n ast.Node) bool {
@@ -1135,6 +1136,20 @@ func init() {
 					if callee == qual || reachQual[callee] {
 						mu.viaQual = true
 					}
+					// a counting fill: the callee increments an element of a map parameter
+					for _, fu := range c.Funcs(inMin) {
+						if fu.Obj != callee || fu.Decl == nil {
+							continue
+						}
+						ast.Inspect(fu.Decl.Body, func(k ast.Node) bool {
+							if ids, ok := k.(*ast.IncDecStmt); ok && ids.Tok == token.INC {
+								if _, isIx := ast.Unparen(ids.X).(*ast.IndexExpr); isIx {
+									mu.viaCount = true
+								}
+							}
+							return true
+						})
+					}
 				}
 			}
 			ast.Inspect(fd.Body, func(n ast.Node) bool {
@@ -1157,7 +1172,7 @@ func init() {
 				return true
 			})
 			var obs []Obligation
-			haveExp, haveQual := false, false
+			haveExp, haveQual, haveCount := false, false, false
 			names := []string{}
 			byName := map[string]*mapUse{}
 			for o, mu := range uses {
@@ -1177,12 +1192,18 @@ func init() {
 					obs = append(obs, mkOb(c, rid, u, construct, mu.fillsBefore[0], Proved, "completed by a loop over all files before the decision loop starts", true))
 					haveExp = haveExp || mu.viaExp
 					haveQual = haveQual || mu.viaQual
+					haveCount = haveCount || mu.viaCount
 				}
 			}
 			if haveExp {
 				obs = append(obs, mkOb(c, rid, u, "session-wide export set", decision, Proved, "a map filled through exportNames over all files is consulted", true))
 			} else {
 				obs = append(obs, mkOb(c, rid, u, "session-wide export set", decision, Violated, "no map consulted by the decision loop is filled through the export recogniser over all files: `(export 'helper)` written in one file of a package does not protect `(defun helper …)` written in another (the per-file analysis of the defining file does not know the name is exported), so the definition is renamed and every user of the exported name finds it unbound", true))
+			}
+			if haveCount {
+				obs = append(obs, mkOb(c, rid, u, "session-wide definition count", decision, Proved, "a map of per-name definition counts over all files is consulted", true))
+			} else {
+				obs = append(obs, mkOb(c, rid, u, "session-wide definition count", decision, Violated, "no map consulted by the decision loop counts how often the session defines a name: a function defined twice — (defun f () 1) (set 'a (f)) (defun f () 2) — is two symbols to the analysis, every reference resolves to the last, and each definition is renamed on its own, so the call between the definitions names a function that is not bound yet (unbound symbol: x2); across files the earlier file silently calls the later file's definition", true))
 			}
 			if haveQual {
 				obs = append(obs, mkOb(c, rid, u, "session-wide qualified-reference set", decision, Proved, "a map filled through splitQualifiedSymbol over all files is consulted", true))
